@@ -2,6 +2,7 @@ import KV.Eval
 import KV.PlanLemmas
 import KV.Value
 import KV.CallsValue
+import KV.Perm
 /-! # C02 — injector result equals sequential evaluation of the declared graph
 
 Property statements only.  Values are Herbrand terms (`KV.Val`): providers are uninterpreted, so "equal
@@ -94,4 +95,140 @@ theorem C02_returned_value {provs0 : List PSpec} {ret : Nat} {p : PlanOut} {prov
     ∃ x, VarVal p p.b.retParam x ∧ GraphVal p.g x ∧ Eval provs sup ret x ∧ ∀ x', VarVal p p.b.retParam x' → x' = x :=
   returned_value h hs
 
+/-! ## Reordering the providers of a declaration
+
+Positions in the provider list change under reordering, so providers are identified by their label — `decl`, and
+for the field-access providers created by a struct expansion the pair (`decl` of the struct provider, `fieldName`) —
+and values are compared in label form (`KV.LVal`, `KV.label provs : Val → LVal`).  `provs0'.Perm provs0` says the
+two declarations list the same providers in different orders. -/
+
+/-- **Suppliers are order-independent.**  If both orders of a declaration have a supplier map (struct expansions
+    included), then for every type key `t`: nobody supplies `t` in either, or `t` is supplied as the same result group
+    by the same provider — same label, same `requires` and `provides` (indeed equal `PSpec`s) — at whatever
+    positions `p'`, `p` it sits in the two expanded lists.  (Holds without assuming distinct labels.) -/
+theorem C02_perm_suppliers {provs0' provs0 provs' provs : List PSpec} {sup' sup : SupMap} (hperm : provs0'.Perm provs0)
+    (hs' : supplierMap provs0' = .ok (provs', sup')) (hs : supplierMap provs0 = .ok (provs, sup)) (t : Nat) :
+    (sup'.lookup t = none ∧ sup.lookup t = none) ∨
+    ∃ p' p gi, sup'.lookup t = some (p', gi) ∧ sup.lookup t = some (p, gi) ∧
+      (provs'.getD p' default).decl = (provs.getD p default).decl ∧
+      (provs'.getD p' default).fieldName = (provs.getD p default).fieldName ∧
+      (provs'.getD p' default).requires = (provs.getD p default).requires ∧
+      (provs'.getD p' default).provides = (provs.getD p default).provides ∧
+      provs'.getD p' default = provs.getD p default := by
+  rcases perm_suppliers hperm hs' hs t with h | ⟨p', p, gi, h1, h2, h3⟩
+  · exact Or.inl h
+  · exact Or.inr ⟨p', p, gi, h1, h2, by rw [h3], by rw [h3], by rw [h3], by rw [h3], h3⟩
+
+/-- **Existence of the supplier map is order-independent** — for declarations with pairwise distinct labels.
+    (The proviso `NoFieldOnlyStruct` of the model of the planner before its repair is gone: struct expansion now
+    iterates to a fixpoint.)  The error reported on failure may differ between the orders. -/
+theorem C02_perm_supplierMap_ok {provs0' provs0 : List PSpec} (hperm : provs0'.Perm provs0)
+    (hnd : (provs0.map (·.decl)).Nodup) :
+    (∃ r', supplierMap provs0' = .ok r') ↔ (∃ r, supplierMap provs0 = .ok r) :=
+  perm_supplierMap_ok hperm hnd
+
+/-- One direction of it (name kept): if one order has a supplier map, every other order has one.  The former second
+    alternative — the other order refused with the `orphan` of a struct expansion whose struct type is only a field
+    of a struct expanded later — no longer exists. -/
+theorem C02_perm_supplierMap_ok_or_orphan {provs0' provs0 provs : List PSpec} {sup : SupMap}
+    (hperm : provs0'.Perm provs0) (hnd : (provs0.map (·.decl)).Nodup) (hs : supplierMap provs0 = .ok (provs, sup)) :
+    ∃ r', supplierMap provs0' = .ok r' :=
+  perm_supplierMap_ok_or_orphan hperm hnd hs
+
+/-- **When the supplier map exists**, position-free: iff no type key has two suppliers (`Unamb`) and every struct
+    expansion is sourced — by a function provider, or recursively as a field of a sourced struct expansion. -/
+theorem C02_supplierMap_ok_iff {provs0 : List PSpec} (hnd : (provs0.map (·.decl)).Nodup) :
+    (∃ r, supplierMap provs0 = .ok r) ↔ (Unamb provs0 ∧ StructsSourced provs0) :=
+  supplierMap_ok_iff hnd
+
+/-- **The value is order-independent.**  For every type key, the reference evaluations over the supplier maps of two
+    orders of the same declaration (struct expansions included) are the same label-based value. -/
+theorem C02_perm_value {provs0' provs0 provs' provs : List PSpec} {sup' sup : SupMap} (hperm : provs0'.Perm provs0)
+    (hs' : supplierMap provs0' = .ok (provs', sup')) (hs : supplierMap provs0 = .ok (provs, sup))
+    {t : Nat} {v' v : Val} (he' : Eval provs' sup' t v') (he : Eval provs sup t v) :
+    label provs' v' = label provs v :=
+  perm_value hperm hs' hs he' he
+
+/-- **Both plans return the same value.**  If both orders are accepted, the variable returned by each emitted
+    injector holds exactly one symbolic value (it is the value the graph wires out of the return node), and the two
+    are the same label-based value. -/
+theorem C02_perm_returned_value {provs0' provs0 : List PSpec} {ret : Nat} {p' p : PlanOut} (hperm : provs0'.Perm provs0)
+    (hp' : plan provs0' ret = .ok p') (hp : plan provs0 ret = .ok p) :
+    ∃ x' x, VarVal p' p'.b.retParam x' ∧ (∀ y, VarVal p' p'.b.retParam y → y = x') ∧ GraphVal p'.g x' ∧
+      VarVal p p.b.retParam x ∧ (∀ y, VarVal p p.b.retParam y → y = x) ∧ GraphVal p.g x ∧
+      label p'.g.provs x' = label p.g.provs x :=
+  perm_returned_value hperm hp' hp
+
+/-- **Acceptance is order-independent** — for declarations with pairwise distinct labels (nested struct expansions
+    included; no proviso any more). -/
+theorem C02_perm_accept {provs0' provs0 : List PSpec} (ret : Nat) (hperm : provs0'.Perm provs0)
+    (hnd : (provs0.map (·.decl)).Nodup) :
+    (∃ p', plan provs0' ret = .ok p') ↔ (∃ p, plan provs0 ret = .ok p) :=
+  perm_accept ret hperm hnd
+
+/-- … and, whenever both orders have a supplier map, without assuming distinct labels. -/
+theorem C02_perm_accept_of_suppliers {provs0' provs0 provs' provs : List PSpec} {sup' sup : SupMap} (ret : Nat)
+    (hperm : provs0'.Perm provs0)
+    (hs' : supplierMap provs0' = .ok (provs', sup')) (hs : supplierMap provs0 = .ok (provs, sup)) :
+    (∃ p', plan provs0' ret = .ok p') ↔ (∃ p, plan provs0 ret = .ok p) :=
+  perm_accept_of_ok ret hperm hs' hs
+
+/-- special case (the hypothesis is no longer needed): declarations without struct expansion -/
+theorem C02_perm_accept_nostruct {provs0' provs0 : List PSpec} (ret : Nat) (hperm : provs0'.Perm provs0)
+    (hnd : (provs0.map (·.decl)).Nodup) (_hk : ∀ q ∈ provs0, q.kind = 0) :
+    (∃ p', plan provs0' ret = .ok p') ↔ (∃ p, plan provs0 ret = .ok p) :=
+  perm_accept ret hperm hnd
+
+/-- special case (the hypothesis is no longer needed): every expanded struct is returned (or bound) by a function
+    provider -/
+theorem C02_perm_accept_fnSourced {provs0' provs0 : List PSpec} (ret : Nat) (hperm : provs0'.Perm provs0)
+    (hnd : (provs0.map (·.decl)).Nodup) (_hsrc : FnSourced provs0) :
+    (∃ p', plan provs0' ret = .ok p') ↔ (∃ p, plan provs0 ret = .ok p) :=
+  perm_accept ret hperm hnd
+
+/-- **Nested struct expansions are accepted in both orders** (finding `struct-order-orphan`, repaired): with
+    `Struct[8]` (field `x` of struct type 5) and `Struct[5]` (field `y` of type 6) the declaration is accepted whether
+    `Struct[8]` or `Struct[5]` is listed first (before the repair the latter order was refused with `orphan 5`). -/
+theorem C02_perm_accept_nested_both_orders :
+    PermExamples.nestedInnerFirst.Perm PermExamples.nestedOuterFirst ∧
+    (PermExamples.nestedOuterFirst.map (·.decl)).Nodup ∧
+    RefuseExamples.isOk (plan PermExamples.nestedOuterFirst 6) = true ∧
+    RefuseExamples.isOk (plan PermExamples.nestedInnerFirst 6) = true :=
+  ⟨PermExamples.nested_perm, PermExamples.nested_distinct, PermExamples.nested_both_accepted⟩
+
+/-- the unrestricted statements (only distinct labels assumed) hold -/
+theorem C02_perm_accept_unrestricted : perm_accept_unrestricted_statement := perm_accept_unrestricted
+theorem C02_perm_supplierMap_ok_unrestricted : perm_supplierMap_ok_unrestricted_statement :=
+  perm_supplierMap_ok_unrestricted
+
+/-! ### checked instance: three providers (`Nat` type keys and labels), rotated `[p0, p1, p2] ↦ [p2, p0, p1]` -/
+section
+open PermExamples
+
+example : declB.Perm declA ∧ (declA.map (·.decl)).Nodup := ⟨declB_perm, by decide⟩
+example : supplierMap declA = .ok (declA, supA) ∧ supplierMap declB = .ok (declB, supB) := ⟨by rfl, by rfl⟩
+/-- position-based reference values of type 1 differ, label-based ones coincide -/
+example : Eval declA supA 1 valA ∧ Eval declB supB 1 valB ∧ valB ≠ valA :=
+  ⟨valA_eval, valB_eval, by intro h; cases h⟩
+example : label declB valB = label declA valA := by rfl
+example : label declB valB = label declA valA := C02_perm_value declB_perm declB_sup declA_sup valB_eval valA_eval
+example : RefuseExamples.isOk (plan declB 1) = true ∧ RefuseExamples.isOk (plan declA 1) = true := by decide
+example : (∃ p', plan declB 1 = .ok p') ↔ (∃ p, plan declA 1 = .ok p) :=
+  C02_perm_accept_nostruct 1 declB_perm declA_distinct (by decide)
+/-- the nested-struct example, by evaluation: both orders accepted -/
+example : RefuseExamples.isOk (plan nestedOuterFirst 6) = true ∧
+    RefuseExamples.isOk (plan nestedInnerFirst 6) = true := by decide
+end
+
 end C02
+
+#print axioms C02.C02_perm_suppliers
+#print axioms C02.C02_perm_supplierMap_ok
+#print axioms C02.C02_perm_supplierMap_ok_or_orphan
+#print axioms C02.C02_perm_value
+#print axioms C02.C02_perm_returned_value
+#print axioms C02.C02_perm_accept
+#print axioms C02.C02_perm_accept_of_suppliers
+#print axioms C02.C02_perm_accept_nested_both_orders
+#print axioms C02.C02_supplierMap_ok_iff
+#print axioms C02.C02_perm_accept_unrestricted
